@@ -12,7 +12,8 @@
      R n { q rank }              rank hint
      A n { code }                behaviour code per leaf
      U b                         utf8 mode (0/1)
-     C tag                       evaluate the certificates: prints "C tag dfa_ok sim_ok exact_ok wf_graph prompt_ok"
+     C tag                       evaluate the certificates: prints "C tag dfa_ok sim_ok exact_ok wf_graph prompt_ok utf8_ok utf8_strict_ok"
+     PU n { q nu { u } }         UTF-8 product hint (u: 0..8 = U0 U1 U2 U2a U2b U3 U3a U3b URej)
      P id mode len { byte }      probe: mode 0 = full, 1 = partial; prints "P id ref: ... | spec: ..."
      N id mode start len { byte }   one next() call with token_end = start
 *)
@@ -32,6 +33,7 @@ let dstart = ref 0
 let prios = ref []
 let vhint = ref []
 let dshint = ref []
+let puhint = ref []
 let rhint = ref []
 let acts = ref []
 let utf8 = ref false
@@ -84,6 +86,9 @@ let () =
         | "V" -> let k = next () in
             vhint := List.init k (fun _ -> let s = next () in let nq = next () in
                                   (n_of_int s, List.init nq (fun _ -> n_of_int (next ()))))
+        | "PU" -> let k = next () in
+            puhint := List.init k (fun _ -> let q = next () in let nu = next () in
+                                   (n_of_int q, List.init nu (fun _ -> n_of_int (next ()))))
         | "DS" -> let k = next () in dshint := List.init k (fun _ -> n_of_int (next ()))
         | "R" -> let k = next () in
             rhint := List.init k (fun _ -> let q = next () in let r = next () in (n_of_int q, n_of_int r));
@@ -95,8 +100,17 @@ let () =
             let d = get_dfa () and g = get_graph () in
             let v = mk_pairing !vhint and ds = mk_pset !dshint and r = get_rank () in
             let b x = if x then "1" else "0" in
-            Buffer.add_string buf (Printf.sprintf "C %s %s %s %s %s %s\n" tag
-              (b (dfa_ok d)) (b (sim_ok d g v ds)) (b (exact_ok d g v r ds)) (b (wf_graph g)) (b (prompt_ok d g v r)))
+            let pu = mk_upairs !puhint in
+            Buffer.add_string buf (Printf.sprintf "C %s %s %s %s %s %s %s %s\n" tag
+              (b (dfa_ok d)) (b (sim_ok d g v ds)) (b (exact_ok d g v r ds)) (b (wf_graph g)) (b (prompt_ok d g v r))
+              (b (utf8_ok d pu)) (b (utf8_strict_ok d pu ds)))
+        | "CU" ->
+            (* DFA-only UTF-8 certificates: dead_ok, utf8_ok, utf8_strict_ok *)
+            let tag = toks.(1) in
+            let d = get_dfa () in
+            let ds = mk_pset !dshint and pu = mk_upairs !puhint in
+            let b x = if x then "1" else "0" in
+            Buffer.add_string buf (Printf.sprintf "CU %s %s %s %s\n" tag (b (dead_ok d ds)) (b (utf8_ok d pu)) (b (utf8_strict_ok d pu ds)))
         | "P" ->
             let id = toks.(1) in pos := 2;
             let mode = next () in let len = next () in
